@@ -517,6 +517,7 @@ class ExprMixin:
             if not args: return 'sv_empty_make()'
             if len(args) == 2: return 'sv_make(%s, (size_t)%s)' % (self.expr(args[0]), self.expr(args[1]))
             a0 = self.skip(args[0])
+            while a0.get('kind') == 'ImplicitCastExpr' and a0.get('inner'): a0 = self.skip(a0['inner'][0])      # array-to-pointer decay of a literal
             if a0.get('kind') == 'StringLiteral':
                 s = a0['value']
                 return 'sv_make(%s, sizeof(%s)-1)' % (s, s)
